@@ -15,6 +15,7 @@ func init() {
 			"PV-ORDER / FE-BOOL: jsonexpr push/walk/pop, index increment, extract only under current.Equal(path)",
 			"LP-ATTEMPT: every return of a parser stage is behind a call handing the line to the extraction step; PV-GUARD: unpack validates a key only when the field becomes a label",
 			"PV-PAIR: regexp group labels are keyed by the index in re.SubexpNames(); PV-FRESH JSON path stack",
+			"PV-WHOLE: every json expression reaches the path table; PV-GUARD: a pattern capture is withheld iff it is named exactly `_`",
 		},
 		NotDecided: []string{"that jx, logfmt and regexp return the values that are in the document", "logqlpattern.Match's literal/capture alternation", "JSON path parsing"},
 		Rules: func(r *Run) {
